@@ -207,6 +207,18 @@ impl ConcreteDev {
         u
     }
     pub fn image(&self, subset: &[(usize, usize)]) -> Vec<u8> {
+        self.image_torn(subset, &[])
+    }
+    /// Journal-slot writes of `subset` that can tear: the image is longer than one 512-byte sector.
+    pub fn tearable(&self, subset: &[(usize, usize)]) -> Vec<(usize, usize)> {
+        subset.iter().copied().filter(|(i, _)| {
+            let (s, d) = &self.pending[*i - 1];
+            *s >= L::JOURNAL_START as u64 && *s < L::META_BACKUP as u64 && d.len() >= 32
+                && u32::from_le_bytes(d[28..32].try_into().unwrap()) >= 60
+        }).collect()
+    }
+    /// As `image`; writes listed in `torn` reached the device with their first 512 bytes only.
+    pub fn image_torn(&self, subset: &[(usize, usize)], torn: &[(usize, usize)]) -> Vec<u8> {
         let mut img = self.durable.clone();
         for (i, (s, d)) in self.pending.iter().enumerate() {
             if *s >= L::DATA_START {
@@ -221,7 +233,8 @@ impl ConcreteDev {
             } else if subset.contains(&(i + 1, 0)) {
                 let off = *s as usize * L::BLOCK;
                 if off + d.len() <= img.len() {
-                    img[off..off + d.len()].copy_from_slice(d);
+                    let n = if torn.contains(&(i + 1, 0)) { 512.min(d.len()) } else { d.len() };
+                    img[off..off + n].copy_from_slice(&d[..n]);
                 }
             }
         }
